@@ -146,7 +146,7 @@ def operator(signature, precedence, associativity, awaited=True, pure=True, toke
 
 # Operators precedences are mostly copied from C
 @operator("x+", precedence=2, associativity="left", pure=False, token=True)
-def postadd(token, x):
+def postadd(token, x) -> int:
     reports.error(
         "unexpected-value",
         (token.ctx_start, token.ctx_end, "The '...+' operator cannot be used with a value. Only syntax like '(r0)+' is allowed.")
@@ -155,7 +155,7 @@ def postadd(token, x):
 
 
 @operator("x-", precedence=2, associativity="left", pure=False, token=True)
-def postsub(token, x):
+def postsub(token, x) -> int:
     reports.error(
         "unexpected-value",
         (token.ctx_start, token.ctx_end, "The '...-' operator cannot be used with a value.")
@@ -281,7 +281,7 @@ def or2(a: int, b: int) -> int:
 
 
 @operator("#x", precedence=15, associativity="left", pure=False, token=True)
-def immediate(token, x):
+def immediate(token, x) -> int:
     reports.error(
         "unexpected-value",
         (token.ctx_start, token.ctx_end, "'#...' cannot be used in this context. You should probably remove the hash sign.")
@@ -290,7 +290,7 @@ def immediate(token, x):
 
 
 @operator("@x", precedence=15, associativity="left", pure=False, token=True)
-def deferred(token, x):
+def deferred(token, x) -> int:
     reports.error(
         "unexpected-value",
         (token.ctx_start, token.ctx_end, "'@...' cannot be used as a value. A common reason for this error is using '#@' instead of '@#'.")
@@ -299,7 +299,7 @@ def deferred(token, x):
 
 
 @operator("%x", precedence=15, associativity="left", pure=False, token=True)
-def register(token, x):
+def register(token, x) -> int:
     reports.error(
         "unexpected-value",
         (token.ctx_start, token.ctx_end, "'%...' cannot be used as a value because the value of a register is not known during compilation.")
@@ -309,7 +309,7 @@ def register(token, x):
 
 # Yes, I'm using Haskell syntax, sue me
 @operator("x $ x", precedence=1, associativity="right", pure=False, token=True)
-def call(token, callee, operand):
+def call(token, callee, operand) -> int:
     reports.error(
         "unexpected-value",
         (token.ctx_start, token.ctx_end, "A construct of kind 'A(B)' is only reasonable in context like '1(r0)'.")
